@@ -428,4 +428,156 @@ theorem stripMangle_prefix (s : Str) : stripMangle s <+: s.dropWhile stripSet :=
   simpa using this
 
 
+/-! ### apply_blacklist on a possibly malformed deny list -/
+
+theorem Deny.le_refl (d : Deny) : d.le d := ⟨fun _ h => h, fun _ h => h, fun _ h => h⟩
+
+theorem Deny.le_trans {a b c : Deny} (h1 : a.le b) (h2 : b.le c) : a.le c :=
+  ⟨fun x h => h2.1 x (h1.1 x h), fun x h => h2.2.1 x (h1.2.1 x h), fun x h => h2.2.2 x (h1.2.2 x h)⟩
+
+theorem Deny.has_mono {cmd : Bool} {d d' : Deny} {s : Str} (h : d.le d') (hs : d.has cmd s) : d'.has cmd s := by
+  unfold Deny.has at *
+  cases cmd
+  · rcases hs with hs | hs
+    · exact Or.inl (h.1 _ hs)
+    · exact Or.inr (h.2.2 _ hs)
+  · rcases hs with hs | hs
+    · exact Or.inl (h.2.1 _ hs)
+    · exact Or.inr (h.2.2 _ hs)
+
+theorem Deny.reg_le (isSpec : Str → Bool) (cmd : Bool) (d : Deny) (s : Str) : d.le (d.reg isSpec cmd s) := by
+  unfold Deny.reg Deny.le
+  cases hs : isSpec s <;> cases cmd <;> simp <;> intro x hx <;> exact Or.inl hx
+
+theorem Deny.reg_has (isSpec : Str → Bool) (cmd : Bool) (d : Deny) (s : Str) : (d.reg isSpec cmd s).has cmd s := by
+  unfold Deny.reg Deny.has
+  cases hs : isSpec s <;> cases cmd <;> simp
+
+/-- a successful files / commands loop keeps what was there and registers every string item; no item is `other` -/
+theorem blLoop_ok (isSpec : Str → Bool) (cmd : Bool) : ∀ (xs : List Item) (d d' : Deny),
+    blLoop isSpec cmd xs d = .ok d' →
+    d.le d' ∧ (∀ s, Item.str s ∈ xs → d'.has cmd s) ∧ Item.other ∉ xs := by
+  intro xs
+  induction xs with
+  | nil => intro d d' h; simp [blLoop] at h; subst h; exact ⟨Deny.le_refl _, by simp, by simp⟩
+  | cons x xs ih =>
+    intro d d' h
+    cases x with
+    | other => simp [blLoop] at h
+    | str t =>
+      simp only [blLoop] at h
+      obtain ⟨h1, h2, h3⟩ := ih _ _ h
+      refine ⟨Deny.le_trans (Deny.reg_le isSpec cmd d t) h1, ?_, ?_⟩
+      · intro s hs
+        simp only [List.mem_cons] at hs
+        rcases hs with hs | hs
+        · cases hs; exact Deny.has_mono h1 (Deny.reg_has isSpec cmd d t)
+        · exact h2 s hs
+      · simp [h3]
+
+/-- the loop aborts exactly when a non-string item is present -/
+theorem blLoop_error_iff (isSpec : Str → Bool) (cmd : Bool) : ∀ (xs : List Item) (d : Deny),
+    blLoop isSpec cmd xs d = .error () ↔ Item.other ∈ xs := by
+  intro xs
+  induction xs with
+  | nil => intro d; simp [blLoop]
+  | cons x xs ih =>
+    intro d
+    cases x with
+    | other => simp [blLoop]
+    | str t => simp [blLoop, ih]
+
+theorem blComps_le (isComp : Str → Bool) : ∀ (xs : List Item) (d : Deny), d.le (blComps isComp xs d) := by
+  intro xs
+  induction xs with
+  | nil => intro d; exact Deny.le_refl _
+  | cons x xs ih =>
+    intro d
+    cases x with
+    | other => simpa [blComps] using ih d
+    | str t =>
+      simp only [blComps]
+      refine Deny.le_trans ?_ (ih _)
+      split
+      · refine ⟨fun _ h => h, fun _ h => h, ?_⟩
+        intro x hx; simp; exact Or.inl hx
+      · exact Deny.le_refl _
+
+theorem blComps_has (isComp : Str → Bool) : ∀ (xs : List Item) (d : Deny) (s : Str),
+    Item.str s ∈ xs → isComp s = true → s ∈ (blComps isComp xs d).disabled := by
+  intro xs
+  induction xs with
+  | nil => intro d s h; simp at h
+  | cons x xs ih =>
+    intro d s h hc
+    simp only [List.mem_cons] at h
+    rcases h with h | h
+    · subst h
+      simp only [blComps, hc, if_true]
+      exact (blComps_le isComp xs _).2.2 _ (by simp)
+    · cases x with
+      | other => simpa [blComps] using ih d s h hc
+      | str t => simp only [blComps]; exact ih _ s h hc
+
+/-- on well-formed input the loop is the fold of the earlier model -/
+theorem blLoop_strs (isSpec : Str → Bool) (cmd : Bool) : ∀ (ss : List Str) (d : Deny),
+    blLoop isSpec cmd (ss.map Item.str) d = .ok (ss.foldl (fun d s => d.reg isSpec cmd s) d) := by
+  intro ss
+  induction ss with
+  | nil => intro d; rfl
+  | cons s ss ih => intro d; simp only [List.map_cons, blLoop, List.foldl_cons]; exact ih _
+
+theorem blComps_strs (isComp : Str → Bool) : ∀ (ss : List Str) (d : Deny),
+    blComps isComp (ss.map Item.str) d
+      = ss.foldl (fun d c => if isComp c then { d with disabled := d.disabled ++ [c] } else d) d := by
+  intro ss
+  induction ss with
+  | nil => intro d; rfl
+  | cons s ss ih => intro d; simp only [List.map_cons, blComps, List.foldl_cons]; exact ih _
+
+/-- the literal deny set a files / commands entry goes to -/
+def Deny.lit (cmd : Bool) (d : Deny) : List Str := if cmd then d.commands else d.files
+
+theorem Deny.lit_mono {cmd : Bool} {d d' : Deny} (h : d.le d') : ∀ x ∈ d.lit cmd, x ∈ d'.lit cmd := by
+  cases cmd
+  · exact h.1
+  · exact h.2.1
+
+theorem Deny.reg_lit (isSpec : Str → Bool) (cmd : Bool) (d : Deny) (s : Str) (hs : isSpec s = false) :
+    s ∈ (d.reg isSpec cmd s).lit cmd := by
+  unfold Deny.reg Deny.lit
+  cases cmd <;> simp [hs]
+
+/-- a successful loop has put every string item that is not a spec's symbolic name into the literal deny set -/
+theorem blLoop_ok_lit (isSpec : Str → Bool) (cmd : Bool) : ∀ (xs : List Item) (d d' : Deny),
+    blLoop isSpec cmd xs d = .ok d' → ∀ s, Item.str s ∈ xs → isSpec s = false → s ∈ d'.lit cmd := by
+  intro xs
+  induction xs with
+  | nil => intro d d' _ s hs; simp at hs
+  | cons x xs ih =>
+    intro d d' h s hs hn
+    cases x with
+    | other => simp [blLoop] at h
+    | str t =>
+      simp only [blLoop] at h
+      simp only [List.mem_cons] at hs
+      rcases hs with hs | hs
+      · cases hs
+        exact Deny.lit_mono (blLoop_ok isSpec cmd xs _ d' h).1 _ (Deny.reg_lit isSpec cmd d s hn)
+      · exact ih _ _ h s hs hn
+
+theorem rstripSep_rel (x : Str) (h : startsWith x ['/'] = false) : startsWith (rstripSep x) ['/'] = false := by
+  have hp : rstripSep x <+: x := by
+    unfold rstripSep
+    have : (x.reverse.dropWhile (· == '/')) <:+ x.reverse := List.dropWhile_suffix _
+    have := List.reverse_prefix.mpr this
+    simpa using this
+  obtain ⟨t, ht⟩ := hp
+  cases hr : rstripSep x with
+  | nil => simp [startsWith, List.isPrefixOf]
+  | cons c cs =>
+    rw [hr] at ht
+    subst ht
+    simpa [startsWith, List.isPrefixOf] using h
+
 end IV.Paths
